@@ -581,6 +581,15 @@ class Interp:
             return self.instantiate(f, args, kwargs)
         if isinstance(f, (classmethod, staticmethod)):
             return self.call(f.__func__, args, kwargs)
+        # dict lookups with a symbolic key: linear search with == (branches on the key)
+        if isinstance(f, types.BuiltinMethodType) and isinstance(getattr(f, "__self__", None), dict) \
+                and f.__name__ in ("get", "pop", "setdefault") and args and is_sym(args[0]):
+            if f.__name__ != "get":
+                raise Inapplicable(f"dict.{f.__name__} with a symbolic key")
+            for k, v in f.__self__.items():
+                if self.truth(self.eq(k, args[0])):
+                    return v
+            return args[1] if len(args) > 1 else kwargs.get("default")
         # compiled regular expressions applied to structured strings
         if isinstance(f, types.BuiltinMethodType) and isinstance(getattr(f, "__self__", None), re.Pattern):
             if any(isinstance(a, SStr) for a in args):
@@ -1114,6 +1123,11 @@ class Interp:
         f = self.repo_dunder(o, "__getitem__")
         if f is not None:
             return self.call_function(f, (o, k), {})
+        if isinstance(k, SEnum) and isinstance(o, dict):
+            for key in o:
+                if self.truth(self.eq(key, k)):
+                    return o[key]
+            raise KeyError(k)
         if isinstance(k, SStr):
             c = k.concrete()
             if c is None:
